@@ -508,4 +508,50 @@ theorem run_ok {σ ρ} (pay : Pay σ) (dep : Depack ρ) (Inv : σ → Bytes → 
     histOk s.pk fs (run pay dep s r fs) = true :=
   run_okE pay dep Inv id s r fs hcfg hm hfit hdep hp
 
+/-! ### reading the train predicate by index -/
+
+theorem seqFrom_get : ∀ (l : List (Res Hdr)) (e : UInt16), seqFrom e l = true →
+    ∀ i (hi : i < l.length), ∃ h, l[i] = .ok h ∧ h.seq = e + i.toUInt16 := by
+  intro l
+  induction l with
+  | nil => intro e _ i hi; cases hi
+  | cons x xs ih =>
+    intro e h i hi
+    cases x with
+    | ok hd =>
+      simp only [seqFrom, Bool.and_eq_true, beq_iff_eq] at h
+      cases i with
+      | zero => exact ⟨hd, rfl, by simp [h.1, Nat.toUInt16]⟩
+      | succ j =>
+        obtain ⟨g, hg1, hg2⟩ := ih (e + 1) h.2 j (by simpa using hi)
+        refine ⟨g, by simpa using hg1, ?_⟩
+        rw [hg2, toUInt16_succ, UInt16.add_assoc, UInt16.add_comm 1]
+    | err _ => simp [seqFrom] at h
+    | panic => simp [seqFrom] at h
+
+theorem markLast_get : ∀ (l : List (Res Hdr)), markLast l = true →
+    ∀ i (hi : i < l.length), ∃ h, l[i] = .ok h ∧ h.marker = decide (i + 1 = l.length) := by
+  intro l
+  induction l with
+  | nil => intro _ i hi; cases hi
+  | cons x xs ih =>
+    intro h i hi
+    cases x with
+    | ok hd =>
+      cases xs with
+      | nil =>
+        simp only [markLast] at h
+        cases i with
+        | zero => exact ⟨hd, rfl, by simp [h]⟩
+        | succ j => simp at hi
+      | cons y ys =>
+        simp only [markLast, Bool.and_eq_true, Bool.not_eq_true'] at h
+        cases i with
+        | zero => exact ⟨hd, rfl, by simp [h.1]⟩
+        | succ j =>
+          obtain ⟨g, hg1, hg2⟩ := ih h.2 j (by simpa using hi)
+          exact ⟨g, by simpa using hg1, by simpa using hg2⟩
+    | err _ => cases xs <;> simp [markLast] at h
+    | panic => cases xs <;> simp [markLast] at h
+
 end Rtp.Proofs.Pipeline
